@@ -104,6 +104,16 @@ def case_array(ctx, rng):
             V(f"conj-raises-{oc.excname}", repr(oc.exc), phase_dual=pd)
             continue
         xc = oc.value
+        # the in-place call form gives the same bra (on a copy, returned as that copy)
+        if rng.random() < 0.5:
+            xi = x.copy()
+            oi = ctx.call(lambda: xi.conj(phase_dual=pd, inplace=True))
+            ctx.evaluated()
+            ctx.count("law", "conj-inplace=conj")
+            if not oi.ok:
+                V(f"conj-raises-{oi.excname}", f"inplace=True: {oi.exc!r}", phase_dual=pd)
+            elif oi.value is not xi or same_arrays(xi, xc):
+                V("conj-inplace-differs", f"conj(phase_dual={pd}, inplace=True) differs from the out-of-place conjugate: {'returned another object' if oi.value is not xi else same_arrays(xi, xc)}", phase_dual=pd)
         # labels: reversed conjugates
         if labels_of(xc) != [(l, not d) for l, d in reversed(labels_of(x))]:
             V("conj-labels", f"labels of conj {labels_of(xc)} are not the reversed conjugates of {labels_of(x)}", phase_dual=pd)
@@ -156,6 +166,15 @@ def case_array(ctx, rng):
             V(f"dagger-raises-{od.excname}", repr(od.exc), phase_dual=pd)
             continue
         xd = od.value
+        if rng.random() < 0.5:
+            xi2 = x.copy()
+            oi2 = ctx.call(lambda: xi2.dagger(phase_dual=pd, inplace=True))
+            ctx.evaluated()
+            ctx.count("law", "dagger-inplace=dagger")
+            if not oi2.ok:
+                V(f"dagger-raises-{oi2.excname}", f"inplace=True: {oi2.exc!r}", phase_dual=pd)
+            elif oi2.value is not xi2 or same_arrays(xi2, xd):
+                V("dagger-inplace-differs", f"dagger(phase_dual={pd}, inplace=True) differs from the out-of-place adjoint: {'returned another object' if oi2.value is not xi2 else same_arrays(xi2, xd)}", phase_dual=pd)
         ctx.evaluated()
         ctx.count("law", "dagger=conjT")
         ot = ctx.call(lambda: xc.transpose())
